@@ -495,7 +495,20 @@ def surface_family():
                               ("m", 0, "m  %s  0" % op), (0, "m", "0  %s  m" % op)]
             out += [(op, l, r, t) for l, r, t in forms]
         return out
-    progs = []
+    # structure: which argument / field / binder / branch is which (each expression denotes n - m or m - n by construction)
+    decl = ("data Pair { Tup(a: i64, b: i64) }\ndata Lst { Nil, Cons(h: i64, t: Lst) }\ncodata Fn { ap(x: i64, y: i64): i64, fst: i64, snd: i64 }\n"
+            "def sub2(x: i64, y: i64): i64 { x - y }\ndef sub3(x: i64, k :cns i64, y: i64): i64 { goto k (x - y) }\n"
+            "def mk(p: i64, q: i64): Fn { new { ap(x, y) => x - y, fst => p, snd => q } }\n")
+    structure = [("-", "n", "m", t) for t in (
+        "sub2(n, m)", "label k { sub3(n, k, m) }", "Tup(n, m).case { Tup(a, b) => a - b }", "Tup(m, n).case { Tup(a, b) => b - a }",
+        "Cons(n, Cons(m, Nil)).case { Nil => 0, Cons(h, t) => t.case { Nil => 0, Cons(h2, t2) => h - h2 } }",
+        "Cons(n, Nil).case { Cons(h, t) => h - m, Nil => 0 }", "Nil.case { Cons(h, t) => 0, Nil => n - m }",
+        "mk(0, 0).ap(n, m)", "(mk(n, m).fst) - (mk(n, m).snd)", "new { ap(x, y) => y - x, fst => 0, snd => 0 }.ap(m, n)",
+        "let a: i64 = n; let b: i64 = m; a - b", "let a: i64 = m; let a: i64 = n; a - m", "if n == n { n - m } else { m - n }",
+        "if n != n { m - n } else { n - m }", "label k { (goto k (n - m)) + 1 }", "label k { if 0 == 0 { goto k (n - m) } else { 0 } }",
+        "(n) - (m)", "((n - m))", "n - (m)", "let f: Fn = mk(n, m); (f.fst) - (f.snd)")]
+    progs = [("surf_structure", decl + "def main(n: i64, m: i64): i64 { %s0 }\n" % "".join("println_i64(%s); " % t for _, _, _, t in structure),
+              [[-3, 5], [5, -3], [0, 7], [9, 0], [-9223372036854775808, 1]], structure)]
     tuples = [[-3, 5], [5, -3], [0, 0], [7, 7], [0, 1], [1, 0], [-1, -1], [9223372036854775807, -9223372036854775808], [-9223372036854775808, 1]]
     nz = [[-7, 2], [7, -2], [-7, -2], [7, 2], [1, 9223372036854775807], [-9223372036854775808, 3], [100, 7]]
     for name, ents, tl, wrap in (("cmp", entries(cmp_ops, [0, 7, -7]), tuples, "if %s { 1 } else { 0 }"),
